@@ -131,6 +131,25 @@ Theorem C23_bn_prices :
     len / 192 * bn_pair_per_point spec + bn_pair_base spec = eip_bn_pair_gas (2 <=? spec) (len / 192).
 Proof. intros. split; [apply bn_add_gas_eip|split; [apply bn_mul_gas_eip|apply bn_pair_gas_eip]]. Qed.
 
+(* The G2 operand of a pairing is judged by an executable definition: on the twist
+   y^2 = x^3 + 3/(9+i) over Fp2 and annihilated by the group order n. The table of two reused
+   points that the evaluation consults first is exact; and a pair whose G2 part is not such a point
+   makes the whole call fail whatever its G1 part is (the point at infinity included), before any
+   later pair is looked at. *)
+Theorem C23_bn_g2_memo_is_exact :
+  forall xi xr yi yr, bn_g2_valid_memo xi xr yi yr = bn_g2_valid xi xr yi yr.
+Proof. exact bn_g2_valid_memo_exact. Qed.
+Theorem C23_bn_pair_invalid_g2_fails :
+  forall e rest oracle t g,
+    (forall n, In n (seq 0 6) -> be_to_Z (slice (32 * n) 32 e) < bn_p) ->
+    ((be_to_Z (slice (32 * 0%nat) 32 e) =? 0) && (be_to_Z (slice (32 * 1%nat) 32 e) =? 0) = true \/
+     on_curve bn_F 3 (be_to_Z (slice (32 * 0%nat) 32 e)) (be_to_Z (slice (32 * 1%nat) 32 e)) = true) ->
+    forallb (fun n => be_to_Z (slice (32 * n) 32 e) =? 0) (seq 2 4) = false ->
+    bn_g2_valid (be_to_Z (slice (32 * 2%nat) 32 e)) (be_to_Z (slice (32 * 3%nat) 32 e))
+                (be_to_Z (slice (32 * 4%nat) 32 e)) (be_to_Z (slice (32 * 5%nat) 32 e)) = false ->
+    bn_pair_walk (e :: rest) oracle t g = PErr E_Bn128AffineGFailedToCreate.
+Proof. exact bn_pair_invalid_g2_fails. Qed.
+
 Theorem C23_bn_out_of_gas :
   forall input cost per base limit oracle,
     (bn_run_add input cost limit = PErr E_OutOfGas <-> limit < cost) /\
